@@ -112,9 +112,12 @@ fn one_history(kind: HiddenKind, rng: &mut Rng, replay: &str) -> (Verdict, u64, 
     let mut ops = 0u64;
     let feats = vec![kind.name().to_string()];
     for _ in 0..n {
-        let k = rng.below(22);
+        let k = rng.below(28);
         let arg = if rng.chance(1, 6) { rng.u64_biased() } else { rng.range(0, 300) };
-        let text = format!("t{}", rng.range(0, 999));
+        // (texts with tabs: message()/prefix() return the expanded text, so the tab width is state too)
+        let text = if rng.chance(1, 3) { format!("t\t{}\tz", rng.range(0, 99)) } else { format!("t{}", rng.range(0, 999)) };
+        let tabw = *rng.pick(&[0usize, 1, 2, 4, 8, 13]);
+        let tmpl = *rng.pick(&["{prefix}|{msg}|{pos}/{len}", "a\tb {msg}", "{wide_msg}\n{pos}"]);
         let name = match k {
             0 => "tick".to_string(),
             1 | 2 => format!("inc({arg})"),
@@ -134,7 +137,12 @@ fn one_history(kind: HiddenKind, rng: &mut Rng, replay: &str) -> (Verdict, u64, 
             18 => "finish_and_clear".to_string(),
             19 => "abandon".to_string(),
             20 => "steady_tick(1ms) for 3ms".to_string(),
-            _ => "wrap_iter(0..5)".to_string(),
+            21 => "wrap_iter(0..5)".to_string(),
+            22 | 23 => format!("set_tab_width({tabw})"),
+            24 => format!("set_style({tmpl:?})"),
+            25 => format!("update(set_pos({arg}), set_len({}))", arg / 2),
+            26 => "finish_using_style".to_string(),
+            _ => "reset_eta + reset_elapsed".to_string(),
         };
         history.push(name.clone());
         let run = |pb: &ProgressBar| -> Option<u64> {
@@ -161,9 +169,20 @@ fn one_history(kind: HiddenKind, rng: &mut Rng, replay: &str) -> (Verdict, u64, 
                     std::thread::sleep(Duration::from_millis(3));
                     pb.disable_steady_tick();
                 }
-                _ => {
+                21 => {
                     let s: u64 = pb.wrap_iter(0..5u64).sum();
                     return Some(s);
+                }
+                22 | 23 => pb.set_tab_width(tabw),
+                24 => pb.set_style(ProgressStyle::with_template(tmpl).unwrap()),
+                25 => pb.update(|st| {
+                    st.set_pos(arg);
+                    st.set_len(arg / 2);
+                }),
+                26 => pb.finish_using_style(),
+                _ => {
+                    pb.reset_eta();
+                    pb.reset_elapsed();
                 }
             }
             None
@@ -380,7 +399,7 @@ pub fn run(cfg: &RunCfg) -> PropResult {
     }
     PropResult {
         report,
-        rule: "each evaluation: a 2-30-step history (tick/inc/dec/set_position/length ops/texts/println/suspend/reset/finish*/abandon/1 ms steady tick/wrap_iter, boundary-biased arguments) applied in lock-step to a hidden bar and to a visible twin on a spy terminal; hidden kinds: hidden() target, member of a hidden MultiProgress, bar removed from a visible MultiProgress (spy call counter watched), and - in child processes whose stdout/stderr are pipes - stderr(), stdout(), stderr_with_hz(60) and MultiProgress::new(); getters and return values compared after every step; every byte on the child's pipes is a violation; non-trivial = at least 2 steps executed".into(),
+        rule: "each evaluation: a 2-30-step history (tick/inc/dec/set_position/length ops/texts with tabs/set_tab_width/set_style/update/println/suspend/reset/reset_eta/reset_elapsed/finish*/finish_using_style/abandon/1 ms steady tick/wrap_iter, boundary-biased arguments) applied in lock-step to a hidden bar and to a visible twin on a spy terminal; hidden kinds: hidden() target, member of a hidden MultiProgress, bar removed from a visible MultiProgress (spy call counter watched), and - in child processes whose stdout/stderr are pipes - stderr(), stdout(), stderr_with_hz(60) and MultiProgress::new(); getters and return values compared after every step; every byte on the child's pipes is a violation; non-trivial = at least 2 steps executed".into(),
         exhaustive: false,
     }
 }
